@@ -735,8 +735,22 @@ func (d *Decoder) handleCall(class Class, argv Tuple) error {
 		return nil
 	}
 
+	// bytes() -> Bytes("")
+	// (this is how CPython pickles b'' at protocol <= 2)
+	if class == pybuiltin(d.protocol, "bytes") && len(argv) == 0 {
+		d.push(Bytes(""))
+		return nil
+	}
+
 	// handle bytearray(...) -> []byte(...)
 	if class == pybuiltin(d.protocol, "bytearray") {
+		// bytearray()
+		// (this is how CPython pickles bytearray(b'') at protocol <= 4)
+		if len(argv) == 0 {
+			d.push([]byte{})
+			return nil
+		}
+
 		// bytearray(bytes(...))
 		if len(argv) == 1 {
 			data, ok := argv[0].(Bytes)
